@@ -17,7 +17,7 @@ const ruleC05 = "stateful: one parsed path (C01 generator, weight on filters wit
 	"Non-trivial: >=2 calls whose outcomes differ and >=1 call after a failing call. Distinct = distinct (path, documents, history)."
 
 func drawC05(rt *rapid.T) *Case {
-	g := gen.NewG(rt, gen.PathOpts{Funcs: true, FuncPct: 20, FilterHeavy: gen.Uniform(rt, "heavy", 3) > 0, LongPaths: true})
+	g := gen.NewG(rt, gen.PathOpts{Funcs: true, FuncPct: 20, FilterHeavy: gen.Uniform(rt, "heavy", 3) > 0, LongPaths: true, RootOmit: true})
 	p := g.Path()
 	r := gen.Render(p, gen.Canon)
 	c := &Case{Path: r.Text, AST: p, UseNumber: rapid.Bool().Draw(rt, "usenumber"), Funcs: true}
@@ -48,7 +48,16 @@ func drawC05(rt *rapid.T) *Case {
 	}
 	n := 2 + gen.Uniform(rt, "nops", maxOps-1)
 	for i := 0; i < n; i++ {
-		switch k := gen.Uniform(rt, "op", 40); {
+		switch k := gen.Uniform(rt, "op", 44); {
+		case k >= 43:
+			// somebody evaluates a path with tens of thousands of results
+			c.Ops = append(c.Ops, Op{Kind: "bigresult", A: []int{1100, 4500, 9000, 70000}[gen.Uniform(rt, "bigsize", 4)]})
+		case k >= 42:
+			// a user function panics in the middle of a call; the caller recovers and carries on
+			c.Ops = append(c.Ops, Op{Kind: "paniccall", A: gen.Uniform(rt, "doc", nd)})
+		case k >= 40:
+			// a Parse that is rejected half-way
+			c.Ops = append(c.Ops, Op{Kind: "poison", A: gen.Uniform(rt, "poisonpath", len(poisonPaths))})
 		case k < 26:
 			c.Ops = append(c.Ops, Op{Kind: "call", A: gen.Uniform(rt, "doc", nd)})
 		case k < 30:
@@ -210,6 +219,34 @@ func checkC05(c *Case, st *Stats) string {
 					r.scribbled = true
 				}
 			}
+		case "poison":
+			pp := poisonPaths[op.A%len(poisonPaths)]
+			_, _ = jsonpath.Parse(pp, BuildConfig(nil, true, false))
+			noteParse(pp, true, false)
+			hist += "rejected-parse "
+		case "paniccall":
+			i := op.A % len(docs)
+			rec.PanicNext = true
+			func() {
+				defer func() {
+					if r := recover(); r != nil {
+						if _, ours := r.(UserPanic); !ours {
+							panic(r)
+						}
+						st.Class("user-function-panicked")
+						hist += "call-with-panicking-function "
+					}
+				}()
+				_, _ = f(docs[i])
+			}()
+			rec.PanicNext = false
+		case "bigresult":
+			big := bigArray(op.A / 10)
+			if got, err := jsonpath.Retrieve("$[*,*,*,*,*,*,*,*,*,*]", big); err != nil || len(got) != len(big)*10 {
+				return fmt.Sprintf("operation %d: $[*,*,*,*,*,*,*,*,*,*] on an array of %d numbers returned %d values, %v", step, len(big), len(got), err)
+			}
+			st.Class("big-result-in-between")
+			hist += fmt.Sprintf("retrieve-%d-values ", len(big)*10)
 		case "gc":
 			runtime.GC()
 			hist += "gc "
@@ -238,6 +275,14 @@ func checkC05(c *Case, st *Stats) string {
 		})
 	}
 	return ""
+}
+
+func bigArray(n int) []interface{} {
+	a := make([]interface{}, n)
+	for i := range a {
+		a[i] = float64(i)
+	}
+	return a
 }
 
 func tierThorough() bool { return envTier() == "thorough" }
